@@ -8,8 +8,11 @@ CFG = dict(
          "a flate-compressed value log; four with a value cache, VLogCacheSize = 64; one whose tx log holds the dead record of a "
          "discarded pre-committed transaction between committed ones), 4-5 small "
          "transactions each; closed; then one COPY of the directory per "
-         "corruption: for every offset class of every committed record (each header field, MdLen/Md, NEntries, per "
-         "entry mdLen/md/kLen/key/vLen/vOff/hVal, trailing Alh) single-bit flips, one byte set to a boundary value, the "
+         "corruption: every v1 transaction but the first carries tx metadata (extra of 2-4 bytes, truncation id, both; one "
+         "extra of 250..256 bytes = maxExtraLen); for every offset class of every committed record (each header field, "
+         "MdLen, inside the tx metadata the attribute codes / truncation id / extra LENGTH / extra bytes, NEntries, per "
+         "entry mdLen, kv-metadata attribute codes / expiry, kLen/key/vLen/vOff/hVal, trailing Alh) every length or "
+         "count field gets exactly +1, +2, -1, -2 (always kept by the sampling), and single-bit flips, one byte set to a boundary value, the "
          "whole field randomised, numeric fields +-1/0/max/shifted; dedicated value-reference edits (vLen 0/shorter/"
          "longer/big, every vLogID incl. absent ones, offset of another value, beyond the end, bit 55); 2-3 fields at "
          "once; random runs of 2..41 bytes; zeroed runs; another committed record copied over this one; consistent "
